@@ -334,6 +334,9 @@ func newEventFromUntrustedJSONV1(eventJSON []byte, roomVersion IRoomVersion) (PD
 	if err := json.Unmarshal(eventJSON, res); err != nil {
 		return nil, err
 	}
+	// "unsigned" was deleted above, but encoding/json matches member names to struct fields
+	// without regard to letter case: an "Unsigned" member must not stand in for it.
+	res.eventFields.Unsigned = nil
 
 	if err := checkID(res.eventFields.RoomID, "room", '!'); err != nil {
 		return nil, err
